@@ -160,6 +160,8 @@ struct PropDef {
 #define VF_NO_INIT namespace vf { void vf_global_init(int, char **) {} }
 // implemented by each target:
 PropDef vf_property();
+// optional: total number of cases for --enumerate mode (tape = 8-byte big-endian index, then zeros)
+uint64_t vf_enum_total() __attribute__((weak));
 // optional hooks
 void vf_global_init(int argc, char **argv);
 
@@ -295,6 +297,7 @@ inline double now_s() { return std::chrono::duration<double>(std::chrono::steady
 inline int driver_main(int argc, char **argv) {
     Driver &d = drv();
     uint64_t cases = 1000; double secs = 1e9; std::string replay, known_file, replay_dir; double shrink_secs = 60;
+    bool enumerate = false; uint64_t nshards = 1, stride = 1;
     for (int i = 1; i < argc; i++) {
         std::string a = argv[i];
         auto nxt = [&]() -> const char * { return i + 1 < argc ? argv[++i] : ""; };
@@ -307,6 +310,9 @@ inline int driver_main(int argc, char **argv) {
         else if (a == "--known") known_file = nxt();
         else if (a == "--shrink-secs") shrink_secs = atof(nxt());
         else if (a == "-v") d.ctx.verbose = true;
+        else if (a == "--enumerate") enumerate = true;
+        else if (a == "--nshards") nshards = strtoull(nxt(), 0, 10);
+        else if (a == "--enum-stride") stride = strtoull(nxt(), 0, 10);
     }
     if (!known_file.empty()) {
         FILE *f = fopen(known_file.c_str(), "r");
@@ -338,6 +344,31 @@ inline int driver_main(int argc, char **argv) {
         }
         printf("REPLAY %s pass%s\n", replay.c_str(), disc ? " (discarded)" : "");
         write_stats("ok");
+        return 0;
+    }
+    if (enumerate) {
+        uint64_t total = vf_enum_total ? vf_enum_total() : 0;
+        if (stride < 1) stride = 1;
+        uint64_t done = 0; bool complete = true;
+        for (uint64_t j = d.shard; ; j += nshards) {
+            uint64_t i = j * stride + (stride > 1 ? d.seed % stride : 0);
+            if (i >= total) break;
+            if (now_s() - t0 > secs) { d.budget_hit = true; complete = false; break; }
+            uint8_t tp[16]; memset(tp, 0, sizeof tp); for (int k = 0; k < 8; k++) tp[k] = (uint8_t) (i >> (8 * (7 - k)));
+            std::string detail; bool disc = false;
+            std::string sig = run_case(pd, tp, sizeof tp, &detail, &disc);
+            d.ctx.evaluations++; done++;
+            if (disc) d.ctx.discards++;
+            if (sig.empty()) continue;
+            if (d.ctx.is_known(sig)) { d.ctx.known_hits[sig]++; if (!d.ctx.known_detail.count(sig)) d.ctx.known_detail[sig] = detail; continue; }
+            d.fail_sig = sig; d.fail_detail = detail; d.fail_replay = d.out_path + ".fail.tape";
+            write_file(d.fail_replay, tp, sizeof tp);
+            d.violations = 1; d.wall = now_s() - t0; write_stats("fail");
+            return 1;
+        }
+        d.ctx.count(complete && stride == 1 ? "enumeration-complete-shards" : "enumeration-partial-shards");
+        d.ctx.count("enumeration-total", d.shard == 0 ? total : 0);
+        d.cur = nullptr; d.wall = now_s() - t0; write_stats("ok");
         return 0;
     }
     Rng rng(d.seed * 1000003ULL + d.shard * 7919ULL + 17);
